@@ -4,7 +4,7 @@ use syn::{
     parse_quote,
     visit::{visit_path, Visit},
     visit_mut::{visit_type_mut, VisitMut},
-    GenericParam, Generics, Ident, Type, WherePredicate,
+    GenericParam, Generics, Ident, TraitBound, Type, WherePredicate,
 };
 
 macro_rules! bail {
@@ -35,6 +35,11 @@ impl VisitableMut for Generics {
 impl VisitableMut for WherePredicate {
     fn visit_mut(&mut self, visit: &mut impl VisitMut) {
         visit.visit_where_predicate_mut(self);
+    }
+}
+impl VisitableMut for TraitBound {
+    fn visit_mut(&mut self, visit: &mut impl VisitMut) {
+        visit.visit_trait_bound_mut(self);
     }
 }
 pub fn expand_self<T: VisitableMut + Clone>(input: &T, to: &Type) -> T {
